@@ -666,6 +666,14 @@ impl MdkMemoryStorage {
     /// * `snapshot` - The group-scoped snapshot to restore from.
     pub fn restore_group_scoped_snapshot(&self, snapshot: GroupScopedSnapshot) {
         let mut inner = self.inner.write();
+        Self::restore_group_scoped_snapshot_locked(&mut inner, snapshot);
+    }
+
+    /// Restores a group-scoped snapshot into storage state the caller holds the write lock of.
+    fn restore_group_scoped_snapshot_locked(
+        inner: &mut MdkMemoryStorageInner,
+        snapshot: GroupScopedSnapshot,
+    ) {
         let group_id = &snapshot.group_id;
 
         // MLS storage uses MlsCodec serialization for group_id keys.
@@ -786,12 +794,14 @@ impl MdkStorageProvider for MdkMemoryStorage {
     }
 
     fn create_group_snapshot(&self, group_id: &GroupId, name: &str) -> Result<(), MdkStorageError> {
+        // The snapshot registry lock is taken first and held until the snapshot is published, so
+        // that capturing the state and registering the snapshot are one step for other threads
+        // (lock order: group_snapshots, then inner).
+        let mut snapshots = self.group_snapshots.write();
         // Create a group-scoped snapshot that only captures data for this group.
         // This ensures that rolling back this snapshot won't affect other groups.
         let snapshot = self.create_group_scoped_snapshot(group_id);
-        self.group_snapshots
-            .write()
-            .insert((group_id.clone(), name.to_string()), snapshot);
+        snapshots.insert((group_id.clone(), name.to_string()), snapshot);
         Ok(())
     }
 
@@ -801,30 +811,29 @@ impl MdkStorageProvider for MdkMemoryStorage {
         name: &str,
     ) -> Result<(), MdkStorageError> {
         let key = (group_id.clone(), name.to_string());
-        let snapshot = {
-            let mut snapshots = self.group_snapshots.write();
-            let snapshot = snapshots
-                .get(&key)
-                .ok_or_else(|| MdkStorageError::NotFound("Snapshot not found".to_string()))?;
-            // Restoring must not hand this group a nostr_group_id that another group took
-            // since the snapshot (save_group refuses that too; SQLite's unique index refuses
-            // the rollback): the nostr-id index would route the id to the wrong group.
-            if let Some(group) = &snapshot.group {
-                let inner = self.inner.read();
-                if let Some(holder) = inner.groups_by_nostr_id_cache.peek(&group.nostr_group_id)
-                    && holder.mls_group_id != *group_id
-                {
-                    return Err(MdkStorageError::Database(
-                        "nostr_group_id already in use by another group".to_string(),
-                    ));
-                }
-            }
-            // Remove and restore the snapshot (consume it)
-            snapshots
-                .remove(&key)
-                .ok_or_else(|| MdkStorageError::NotFound("Snapshot not found".to_string()))?
-        };
-        self.restore_group_scoped_snapshot(snapshot);
+        // Consuming the snapshot and restoring it happen under both locks (group_snapshots,
+        // then inner), so no other thread sees the snapshot gone but the state not yet restored.
+        let mut snapshots = self.group_snapshots.write();
+        let mut inner = self.inner.write();
+        let snapshot = snapshots
+            .get(&key)
+            .ok_or_else(|| MdkStorageError::NotFound("Snapshot not found".to_string()))?;
+        // Restoring must not hand this group a nostr_group_id that another group took
+        // since the snapshot (save_group refuses that too; SQLite's unique index refuses
+        // the rollback): the nostr-id index would route the id to the wrong group.
+        if let Some(group) = &snapshot.group
+            && let Some(holder) = inner.groups_by_nostr_id_cache.peek(&group.nostr_group_id)
+            && holder.mls_group_id != *group_id
+        {
+            return Err(MdkStorageError::Database(
+                "nostr_group_id already in use by another group".to_string(),
+            ));
+        }
+        // Remove and restore the snapshot (consume it)
+        let snapshot = snapshots
+            .remove(&key)
+            .ok_or_else(|| MdkStorageError::NotFound("Snapshot not found".to_string()))?;
+        Self::restore_group_scoped_snapshot_locked(&mut inner, snapshot);
         Ok(())
     }
 
